@@ -1325,7 +1325,7 @@ func init() {
 // C10: connection isolation
 
 func init() {
-	rids := []string{"t.a", "t.b", "t.{cid}", "t.{cid}", "t.p?u={cid}", "t.p?u=1", "t.u.{cid}.x", "t.c"}
+	rids := []string{"t.a", "t.b", "t.{cid}", "t.{cid}", "t.p?u={cid}", "t.p?u=1", "t.u.{cid}.x", "t.c", "t.p?u={cid}&v={cid}"}
 	register(&SimProp{
 		ID: "C10",
 		Profiles: []*Profile{
